@@ -156,6 +156,19 @@ class GuardedSummarizer(Summarizer):
     """records every branch decision as an event, so that checks and effects are ordered on each path; `del` of a registry
     entry and stores become effect events"""
 
+    def expr(self, n, st):
+        v = super().expr(n, st)
+        # a read of a registry entry is an event too: with an absent key it raises KeyError at that point of the path
+        if isinstance(n, ast.Subscript) and isinstance(n.ctx, ast.Load) and registry_of(n.value) is not None \
+                and not any(isinstance(c, ast.Call) for c in ast.walk(n.slice)):
+            try:
+                k = super().expr(n.slice, st)
+            except Unsupported:
+                k = None
+            if k is not None:
+                st.events.append(("load", registry_of(n.value), k, n.lineno))
+        return v
+
     def stmt(self, n, st):
         if isinstance(n, ast.If):
             before = len(st.guards)
